@@ -1,17 +1,124 @@
-"""Counterexample search / replay against the real code (see DESIGN 2.3)."""
+"""Counterexample search and replay against the real code (DESIGN 2.3).
+
+* Kani violations: the failing harness is re-run with `--concrete-playback=print`; the generated unit
+  test (concrete byte values for every kani::any()) is stored in the replay file and executed with
+  `cargo kani playback` on the same overlay, i.e. on the real function bodies.
+* Verus violations (no model from the solver): the runtime-contract-check program registered for the
+  function (rac/registry.py) enumerates small inputs against the real code; a hit is stored as the
+  failing input. No hit => the VIOLATION line ends with `no-failing-input-found`.
+"""
 import json
+import os
+import re
+import shutil
+import subprocess
+
+from . import kanirun
+
+ROOT = '/verif'
+
+
+def _kani_env():
+    env = dict(os.environ)
+    env['CARGO_NET_OFFLINE'] = 'true'
+    env['CARGO_TARGET_DIR'] = kanirun.TARGET
+    env.pop('RUSTUP_TOOLCHAIN', None)
+    return env
+
+
+def kani_counterexample(v):
+    k = v['kani']
+    scratch = kanirun.make_scratch()
+    try:
+        kanirun.overlay(scratch, [(k['attach'], os.path.join(ROOT, 'kani', k['file']))])
+        cmd = ['cargo', 'kani', '-p', k['crate'], '-Z', 'function-contracts', '-Z', 'stubbing', '-Z', 'concrete-playback', '--concrete-playback=print',
+               '--exact', '--harness', f'{k["modpath"]}::{k["harness"]}']
+        p = subprocess.run(cmd, cwd=scratch, env=_kani_env(), capture_output=True, text=True, timeout=3600)
+        out = p.stdout
+        m = re.search(r'```\n(.*?)```', out, re.S)
+        if not m:
+            return None
+        test = m.group(1)
+        vals = re.findall(r'//\s*(.*)\n\s*vec!\[([^\]]*)\]', test)
+        tname = re.search(r'fn (kani_concrete_playback_\w+)', test).group(1)
+        found = {'kind': 'kani-concrete-playback', 'values': [{'as_printed_by_cbmc': a.strip(), 'bytes': b.strip()} for a, b in vals],
+                 'playback_test': test, 'test_name': tname, 'kani': k}
+        # confirm on the real code
+        ok, tail = _playback(scratch, k, test, tname)
+        found['replayed_on_real_code'] = ok
+        found['replay_output'] = tail
+        return found
+    finally:
+        shutil.rmtree(scratch, ignore_errors=True)
+
+
+def _playback(scratch, k, test, tname):
+    """append the generated test next to the harness (inside the overlay module file copy) and run it"""
+    hcopy = os.path.join(scratch, '__verif_playback_' + k['file'])
+    shutil.copy(os.path.join(ROOT, 'kani', k['file']), hcopy)
+    with open(hcopy, 'a') as f:
+        f.write('\n' + test + '\n')
+    p = os.path.join(scratch, k['attach'])
+    src = open(p).read().replace(f'include!("{os.path.join(ROOT, "kani", k["file"])}");', f'include!("{hcopy}");')
+    open(p, 'w').write(src)
+    cmd = ['cargo', 'kani', 'playback', '-Z', 'concrete-playback', '-p', k['crate'], '--', tname, '--nocapture']
+    r = subprocess.run(cmd, cwd=scratch, env=_kani_env(), capture_output=True, text=True, timeout=3600)
+    out = r.stdout + r.stderr
+    failed = bool(re.search(r'test result: FAILED|panicked at', out))
+    return failed, out[-2500:]
 
 
 def search_counterexample(pid, v):
+    if v.get('rac_counterexample'):
+        return {'kind': 'rac', 'input': v['rac_counterexample']}
+    if v.get('kani'):
+        return kani_counterexample(v)
+    # Verus: look for a registered runtime contract check of the failing function
+    from rac.registry import RAC_FOR_FUNCTION, RAC
+    names = RAC_FOR_FUNCTION.get(v.get('function'), [])
+    if not names:
+        return None
+    from . import racrun
+    items = [RAC[n] | {'name': n} for n in names]
+    res = racrun.run_tests(items)
+    for it in items:
+        r = res.get(it['test'])
+        if r and r['cex']:
+            return {'kind': 'rac', 'rac': it['name'], 'test': it['test'], 'input': r['cex'][0][1], 'cmd': r['cmd'], 'output_tail': r['tail']}
+    v['rac_searched'] = [{'rac': it['name'], 'result': (res.get(it['test']) or {}).get('ok')} for it in items]
     return None
 
 
 def replay_file(path):
     d = json.load(open(path))
-    print(json.dumps({k: d[k] for k in ('property', 'obligation', 'message', 'repo', 'failing_input') if k in d}, indent=1))
-    print(d.get('verifier_output', ''))
+    print(f'property={d.get("property")} obligation={d.get("obligation")} function={d.get("function")} at {d.get("repo")}')
+    print('verifier said:', d.get('message'))
+    fi = d.get('failing_input')
+    if not fi:
+        print('no failing input was found when the violation was reported; verifier output follows')
+        print(d.get('verifier_output', ''))
+        return 0
+    if fi.get('kind') == 'kani-concrete-playback':
+        k = fi['kani']
+        scratch = kanirun.make_scratch()
+        try:
+            kanirun.overlay(scratch, [(k['attach'], os.path.join(ROOT, 'kani', k['file']))])
+            failed, tail = _playback(scratch, k, fi['playback_test'], fi['test_name'])
+        finally:
+            shutil.rmtree(scratch, ignore_errors=True)
+        print(tail)
+        print('REPLAY: the counterexample', 'still fails' if failed else 'no longer fails', 'on the current /repo')
+        return 1 if failed else 0
+    if fi.get('kind') == 'rac':
+        from rac.registry import RAC
+        from . import racrun
+        name = fi.get('rac')
+        print('failing input:', fi.get('input'))
+        if name and name in RAC:
+            res = racrun.run_tests([RAC[name] | {'name': name}])
+            r = res.get(RAC[name]['test'])
+            print(r['tail'] if r else '')
+            failed = bool(r and r['cex'])
+            print('REPLAY: the runtime contract check', 'still fails' if failed else 'no longer fails', 'on the current /repo')
+            return 1 if failed else 0
     return 0
-
-
-def run_bounded_rac(pid, rac, out, tier):
-    pass
